@@ -32,14 +32,14 @@ theorem startsWith_hash_false (line : Str) (h : line.head? ≠ some '#') : start
   | nil => rfl
   | cons c t =>
     simp only [List.head?_cons, ne_eq, Option.some.injEq] at h
-    simp [startsWith, List.isPrefixOf, h]
+    simp [startsWith, List.isPrefixOf, Ne.symm h]
 
 theorem startsWith_hashhash_false (line : Str) (h : line.head? ≠ some '#') : startsWith ['#', '#'] line = false := by
   cases line with
   | nil => rfl
   | cons c t =>
     simp only [List.head?_cons, ne_eq, Option.some.injEq] at h
-    simp [startsWith, List.isPrefixOf, h]
+    simp [startsWith, List.isPrefixOf, Ne.symm h]
 
 theorem lineOfCols_head (name : Str) (rest : List Str) (hn : name ≠ []) :
     (lineOfCols (name :: rest)).head? = name.head? := by
@@ -50,10 +50,14 @@ theorem lineOfCols_head (name : Str) (rest : List Str) (hn : name ≠ []) :
     | nil => rfl
     | cons g gs => rfl
 
+theorem isBlankLine_lineOfCols (cols : List Str) (f : Str) (c : Char) (hf : f ∈ cols) (hc : c ∈ f)
+    (hs : isSpace c = false) : isBlankLine (lineOfCols cols) = false :=
+  isBlankLine_false _ c (List.mem_append_left _ (mem_joinWith _ _ _ _ hf hc)) hs
+
 theorem strandStr_agp (s : Int) (h : s = 0 ∨ s = 1 ∨ s = -1) :
     ∃ t, strandStr Gen.agpStrandStr s = .ok t ∧ lookupStr Gen.agpStrandDict t = .ok s ∧
-      '\t' ∉ t ∧ endsNonSpace t = true := by
-  rcases h with rfl | rfl | rfl <;> exact ⟨_, rfl, rfl, by decide, by decide⟩
+      '\t' ∉ t ∧ '\n' ∉ t ∧ endsNonSpace t = true := by
+  rcases h with rfl | rfl | rfl <;> exact ⟨_, rfl, rfl, by decide, by decide, by decide⟩
 
 theorem lookupStr_agp_strand (t : Str) (s : Int) (h : lookupStr Gen.agpStrandDict t = .ok s) :
     s = 0 ∨ s = 1 ∨ s = -1 := by
@@ -70,7 +74,81 @@ theorem mkFragment_ok (oid : Nat) (name : Str) (s e strand : Int) (tags : List S
     (h1 : strand = 0 ∨ strand = 1 ∨ strand = -1) (h2 : s ≤ e) :
     mkFragment oid name s e strand tags = .ok { oid, name, start := s, stop := e, strand, tags } := by
   unfold mkFragment
-  rw [if_neg (by simpa using h1), if_neg (by omega)]
+  rw [if_neg (fun hn => hn h1), if_neg (by omega)]
+
+/-- the part of `parse_agp`'s loop body after `fields = line.rstrip().split("\t")` -/
+def agpFields (st : ParseState) (fields : List Str) : R ParseState := do
+    let f0 ← pyGet fields 0
+    let st := st.switchScaffold f0
+    let f4 ← pyGet fields 4
+    if Gen.agpGapComponentTypes.contains f4 then do
+      if ¬ st.haveScaffold then throw .attribute
+      let f5 ← pyGet fields 5
+      let f6 ← pyGet fields 6
+      let len ← pyInt f5
+      st.addRow (.gap { length := len, gapType := f6 })
+    else do
+      if ¬ st.haveScaffold then throw .attribute
+      let f5 ← pyGet fields 5
+      let f6 ← pyGet fields 6
+      let f7 ← pyGet fields 7
+      let f8 ← pyGet fields 8
+      let strand ← lookupStr Gen.agpStrandDict f8
+      let s ← pyInt f6
+      let e ← pyInt f7
+      let f ← mkFragment st.nextOid f5 s e strand (fields.drop 9)
+      let st ← st.addRow (.frag f)
+      pure { st with nextOid := st.nextOid + 1 }
+
+theorem parseAgpLine_eq (st : ParseState) (line : Str) : parseAgpLine st line =
+    if isBlankLine line then .ok st
+    else if startsWith ['#', '#'] line then .ok st
+    else if startsWith ['#'] line then
+      match headerText line with
+      | some h => .ok { st with header := st.header ++ [h] }
+      | none => .ok st
+    else agpFields st (splitOnChar '\t' (rstripBy isSpace line)) := by
+  unfold parseAgpLine agpFields
+  rfl
+
+theorem addRow_noScaffold (st : ParseState) (r : Row) (h : st.haveScaffold = false) :
+    st.addRow r = .error .attribute := by
+  unfold ParseState.addRow; simp [h]
+
+theorem agpFields_gap (st : ParseState) (name a b c : Str) (len : Int) (gt x y : Str) :
+    agpFields st [name, a, b, c, Gen.agpGapCol5, intToStr len, gt, x, y] =
+      addRowOid (st.switchScaffold name) (.gap { length := len, gapType := gt }) := by
+  have g0 : pyGet [name, a, b, c, Gen.agpGapCol5, intToStr len, gt, x, y] 0 = .ok name := pyGet_nat _ 0 _ rfl
+  have g4 : pyGet [name, a, b, c, Gen.agpGapCol5, intToStr len, gt, x, y] 4 = .ok Gen.agpGapCol5 := pyGet_nat _ 4 _ rfl
+  have g5 : pyGet [name, a, b, c, Gen.agpGapCol5, intToStr len, gt, x, y] 5 = .ok (intToStr len) := pyGet_nat _ 5 _ rfl
+  have g6 : pyGet [name, a, b, c, Gen.agpGapCol5, intToStr len, gt, x, y] 6 = .ok gt := pyGet_nat _ 6 _ rfl
+  have hU : Gen.agpGapComponentTypes.contains Gen.agpGapCol5 = true := by decide
+  unfold agpFields
+  simp only [g0, g4, g5, g6, bind, Except.bind, hU, if_true, pyInt_intToStr, addRowOid]
+  cases hh : (st.switchScaffold name).haveScaffold with
+  | true => simp
+  | false => simp [addRow_noScaffold _ _ hh, throw, throwThe, MonadExceptOf.throw]
+
+theorem agpFields_frag (st : ParseState) (name a b c : Str) (f : Fragment) (ss : Str)
+    (hlook : lookupStr Gen.agpStrandDict ss = .ok f.strand) (hse : f.start ≤ f.stop) :
+    agpFields st (name :: a :: b :: c :: Gen.agpFragCol5 :: f.name :: intToStr f.start :: intToStr f.stop :: ss :: f.tags) =
+      addRowOid (st.switchScaffold name) (.frag f) := by
+  have hstr := lookupStr_agp_strand _ _ hlook
+  have g0 : pyGet (name :: a :: b :: c :: Gen.agpFragCol5 :: f.name :: intToStr f.start :: intToStr f.stop :: ss :: f.tags) 0 = .ok name := pyGet_nat _ 0 _ rfl
+  have g4 : pyGet (name :: a :: b :: c :: Gen.agpFragCol5 :: f.name :: intToStr f.start :: intToStr f.stop :: ss :: f.tags) 4 = .ok Gen.agpFragCol5 := pyGet_nat _ 4 _ rfl
+  have g5 : pyGet (name :: a :: b :: c :: Gen.agpFragCol5 :: f.name :: intToStr f.start :: intToStr f.stop :: ss :: f.tags) 5 = .ok f.name := pyGet_nat _ 5 _ rfl
+  have g6 : pyGet (name :: a :: b :: c :: Gen.agpFragCol5 :: f.name :: intToStr f.start :: intToStr f.stop :: ss :: f.tags) 6 = .ok (intToStr f.start) := pyGet_nat _ 6 _ rfl
+  have g7 : pyGet (name :: a :: b :: c :: Gen.agpFragCol5 :: f.name :: intToStr f.start :: intToStr f.stop :: ss :: f.tags) 7 = .ok (intToStr f.stop) := pyGet_nat _ 7 _ rfl
+  have g8 : pyGet (name :: a :: b :: c :: Gen.agpFragCol5 :: f.name :: intToStr f.start :: intToStr f.stop :: ss :: f.tags) 8 = .ok ss := pyGet_nat _ 8 _ rfl
+  have hW : Gen.agpGapComponentTypes.contains Gen.agpFragCol5 = false := by decide
+  unfold agpFields
+  simp only [g0, g4, g5, g6, g7, g8, bind, Except.bind, hW, Bool.false_eq_true, if_false, pyInt_intToStr, hlook,
+    List.drop_succ_cons, List.drop_zero, mkFragment_ok _ _ _ _ _ _ hstr hse, addRowOid]
+  cases hh : (st.switchScaffold name).haveScaffold with
+  | true =>
+    simp only [not_true_eq_false, if_false]
+    cases (st.switchScaffold name).addRow (Row.frag { f with oid := (st.switchScaffold name).nextOid }) <;> rfl
+  | false => simp [addRow_noScaffold _ _ hh, throw, throwThe, MonadExceptOf.throw]
 
 /-- (e, AGP) the reader applied to a written line adds exactly that row (opening the scaffold if its name is new) -/
 theorem parseAgpLine_row (st : ParseState) (name : Str) (p i : Int) (row : Row) (cols : List Str)
@@ -99,32 +177,15 @@ theorem parseAgpLine_row (st : ParseState) (name : Str) (p i : Int) (row : Row) 
         · decide
         · decide)
       Gen.agpGapEvidence rfl (by decide)
-    unfold parseAgpLine
-    rw [isBlankLine_false _ d (List.mem_append_left _ (mem_joinWith _ _ _ _ (by simp) hdm)) hds]
-    rw [startsWith_hashhash_false _ (by rw [List.cons_append, lineOfCols_head _ _ hne]; exact hnh),
+    rw [parseAgpLine_eq, isBlankLine_lineOfCols _ _ d (by simp) hdm hds,
+      startsWith_hashhash_false _ (by rw [List.cons_append, lineOfCols_head _ _ hne]; exact hnh),
       startsWith_hash_false _ (by rw [List.cons_append, lineOfCols_head _ _ hne]; exact hnh)]
     simp only [Bool.false_eq_true, if_false]
     rw [hfields]
-    have g0 : ∀ l : List Str, pyGet (name :: l) 0 = .ok name := fun l => pyGet_nat _ 0 _ rfl
-    simp only [List.cons_append, List.nil_append]
-    rw [g0]
-    simp only [bind, Except.bind]
-    rw [pyGet_nat _ 4 Gen.agpGapCol5 rfl]
-    simp only
-    rw [if_pos (by decide)]
-    simp only [addRowOid]
-    by_cases hh : (st.switchScaffold name).haveScaffold = true
-    · simp only [hh, not_true_eq_false, if_false]
-      rw [pyGet_nat _ 5 (intToStr g.length) rfl, pyGet_nat _ 6 g.gapType rfl]
-      simp only [pyInt_intToStr]
-      rfl
-    · simp only [hh, not_false_eq_true, if_true]
-      unfold ParseState.addRow
-      simp [hh]
-      rfl
+    exact agpFields_gap st name _ _ _ g.length g.gapType _ _
   | frag f =>
     obtain ⟨hft, htt, hlast, hse, hstr⟩ := hr
-    obtain ⟨ss, hss, hlook, hsst, hsse⟩ := strandStr_agp f.strand hstr
+    obtain ⟨ss, hss, hlook, hsst, _, hsse⟩ := strandStr_agp f.strand hstr
     simp only [agpRowCols, hss] at hc
     cases hc
     have hlastcol : ∃ l, ([name, intToStr (p + 1), intToStr (p + (Row.frag f).length), intToStr (i + 1)] ++
@@ -144,7 +205,7 @@ theorem parseAgpLine_row (st : ParseState) (name : Str) (p i : Int) (row : Row) 
         [Gen.agpFragCol5, f.name, intToStr f.start, intToStr f.stop, ss] ++ f.tags)
       (by
         intro c hc
-        simp only [List.cons_append, List.nil_append, List.mem_cons, List.mem_append, List.not_mem_nil, or_false] at hc
+        simp only [List.cons_append, List.nil_append, List.mem_cons] at hc
         rcases hc with rfl | rfl | rfl | rfl | rfl | rfl | rfl | rfl | rfl | hc
         · exact hnt
         · exact intToStr_no_tab _
@@ -157,34 +218,119 @@ theorem parseAgpLine_row (st : ParseState) (name : Str) (p i : Int) (row : Row) 
         · exact hsst
         · exact htt c hc)
       l hl1 hl2
-    unfold parseAgpLine
-    rw [isBlankLine_false _ d (List.mem_append_left _ (mem_joinWith _ _ _ _ (by simp) hdm)) hds]
-    rw [startsWith_hashhash_false _ (by rw [List.cons_append, lineOfCols_head _ _ hne]; exact hnh),
-      startsWith_hash_false _ (by rw [List.cons_append, lineOfCols_head _ _ hne]; exact hnh)]
+    rw [parseAgpLine_eq, isBlankLine_lineOfCols _ _ d (by simp) hdm hds,
+      startsWith_hashhash_false _ (by rw [List.cons_append, List.cons_append, lineOfCols_head _ _ hne]; exact hnh),
+      startsWith_hash_false _ (by rw [List.cons_append, List.cons_append, lineOfCols_head _ _ hne]; exact hnh)]
     simp only [Bool.false_eq_true, if_false]
     rw [hfields]
-    have g0 : ∀ l : List Str, pyGet (name :: l) 0 = .ok name := fun l => pyGet_nat _ 0 _ rfl
-    simp only [List.cons_append, List.nil_append]
-    rw [g0]
-    simp only [bind, Except.bind]
-    rw [pyGet_nat _ 4 Gen.agpFragCol5 rfl]
-    simp only
-    rw [if_neg (by decide)]
-    simp only [addRowOid]
-    by_cases hh : (st.switchScaffold name).haveScaffold = true
-    · simp only [hh, not_true_eq_false, if_false]
-      rw [pyGet_nat _ 5 f.name rfl, pyGet_nat _ 6 (intToStr f.start) rfl, pyGet_nat _ 7 (intToStr f.stop) rfl,
-        pyGet_nat _ 8 ss rfl]
-      simp only [hlook, pyInt_intToStr]
-      rw [show List.drop 9 (name :: intToStr (p + 1) :: intToStr (p + (Row.frag f).length) :: intToStr (i + 1) ::
-            Gen.agpFragCol5 :: f.name :: intToStr f.start :: intToStr f.stop :: ss :: f.tags) = f.tags from rfl]
-      rw [mkFragment_ok _ _ _ _ _ _ hstr hse]
-      simp only
-      cases (st.switchScaffold name).addRow (Row.frag { oid := (st.switchScaffold name).nextOid, name := f.name,
-        start := f.start, stop := f.stop, strand := f.strand, tags := f.tags }) <;> rfl
-    · simp only [hh, not_false_eq_true, if_true]
-      unfold ParseState.addRow
-      simp [hh]
-      rfl
+    exact agpFields_frag st name _ _ _ f ss hlook hse
+
+
+theorem agpFields_ok {st : ParseState} {fields : List Str} {st' : ParseState} (h : agpFields st fields = .ok st') :
+    ∃ name r st'', pyGet fields 0 = .ok name ∧ (st.switchScaffold name).addRow r = .ok st'' ∧
+      st'.scaffolds = st''.scaffolds ∧ st'.header = st''.header := by
+  unfold agpFields at h
+  simp only [bind, Except.bind] at h
+  cases h0 : pyGet fields 0 with
+  | error e => rw [h0] at h; cases h
+  | ok name =>
+    rw [h0] at h; simp only at h
+    refine ⟨name, ?_⟩
+    cases h4 : pyGet fields 4 with
+    | error e => rw [h4] at h; cases h
+    | ok f4 =>
+      rw [h4] at h; simp only at h
+      cases hh : (st.switchScaffold name).haveScaffold with
+      | false => simp [hh, throw, throwThe, MonadExceptOf.throw] at h
+      | true =>
+        simp only [hh, not_true_eq_false, if_false] at h
+        split at h
+        · cases h5 : pyGet fields 5 with
+          | error e => rw [h5] at h; cases h
+          | ok f5 =>
+            rw [h5] at h; simp only at h
+            cases h6 : pyGet fields 6 with
+            | error e => rw [h6] at h; cases h
+            | ok f6 =>
+              rw [h6] at h; simp only at h
+              cases hi : pyInt f5 with
+              | error e => rw [hi] at h; cases h
+              | ok len =>
+                rw [hi] at h; simp only at h
+                exact ⟨_, st', rfl, h, rfl, rfl⟩
+        · cases h5 : pyGet fields 5 with
+          | error e => rw [h5] at h; cases h
+          | ok f5 =>
+            rw [h5] at h; simp only at h
+            cases h6 : pyGet fields 6 with
+            | error e => rw [h6] at h; cases h
+            | ok f6 =>
+              rw [h6] at h; simp only at h
+              cases h7 : pyGet fields 7 with
+              | error e => rw [h7] at h; cases h
+              | ok f7 =>
+                rw [h7] at h; simp only at h
+                cases h8 : pyGet fields 8 with
+                | error e => rw [h8] at h; cases h
+                | ok f8 =>
+                  rw [h8] at h; simp only at h
+                  cases hl : lookupStr Gen.agpStrandDict f8 with
+                  | error e => rw [hl] at h; cases h
+                  | ok strand =>
+                    rw [hl] at h; simp only at h
+                    cases hi : pyInt f6 with
+                    | error e => rw [hi] at h; cases h
+                    | ok sv =>
+                      rw [hi] at h; simp only at h
+                      cases hj : pyInt f7 with
+                      | error e => rw [hj] at h; cases h
+                      | ok ev =>
+                        rw [hj] at h; simp only at h
+                        cases hm : mkFragment (st.switchScaffold name).nextOid f5 sv ev strand (List.drop 9 fields) with
+                        | error e => rw [hm] at h; cases h
+                        | ok fr =>
+                          rw [hm] at h; simp only at h
+                          cases ha : (st.switchScaffold name).addRow (Row.frag fr) with
+                          | error e => rw [ha] at h; cases h
+                          | ok st'' =>
+                            rw [ha] at h
+                            simp only [pure, Except.pure, Except.ok.injEq] at h
+                            subst h
+                            exact ⟨_, st'', rfl, ha, rfl, rfl⟩
+
+/-- (e) "no line is silently skipped, merged or re-homed" for the AGP reader: a blank or `#` line leaves the
+    scaffolds untouched; every other line either raises or adds exactly one row — to the scaffold named in its
+    first column, which is the current one or a newly opened one. -/
+theorem agp_line_one_row_or_error (st : ParseState) (line : Str) (st' : ParseState)
+    (h : parseAgpLine st line = .ok st') :
+    (isBlankLine line = true ∨ startsWith ['#'] line = true →
+        st'.scaffolds = st.scaffolds ∧ st'.currentName = st.currentName ∧ st'.nextOid = st.nextOid) ∧
+    (¬ (isBlankLine line = true ∨ startsWith ['#'] line = true) →
+        OneRowAdded st st' ∧ totalRows st' = totalRows st + 1 ∧ st'.header = st.header) := by
+  rw [parseAgpLine_eq] at h
+  have h21 : startsWith ['#', '#'] line = true → startsWith ['#'] line = true := by
+    cases line with
+    | nil => intro h; cases h
+    | cons c t => simp only [startsWith, List.isPrefixOf]; intro h; simp at h ⊢; exact h.1
+  by_cases hb : isBlankLine line = true
+  · rw [if_pos hb] at h; cases h
+    exact ⟨fun _ => ⟨rfl, rfl, rfl⟩, fun hn => absurd (Or.inl hb) hn⟩
+  · rw [if_neg hb] at h
+    by_cases h2 : startsWith ['#', '#'] line = true
+    · rw [if_pos h2] at h; cases h
+      exact ⟨fun _ => ⟨rfl, rfl, rfl⟩, fun hn => absurd (Or.inr (h21 h2)) hn⟩
+    · rw [if_neg h2] at h
+      by_cases h1 : startsWith ['#'] line = true
+      · rw [if_pos h1] at h
+        refine ⟨fun _ => ?_, fun hn => absurd (Or.inr h1) hn⟩
+        split at h <;> (cases h; exact ⟨rfl, rfl, rfl⟩)
+      · rw [if_neg h1] at h
+        refine ⟨fun hc => by rcases hc with hc | hc <;> contradiction, fun _ => ?_⟩
+        obtain ⟨name, r, st'', _, ha, e1, e2⟩ := agpFields_ok h
+        obtain ⟨hone, hhdr, _⟩ := oneRow_of_switch_addRow st name r st'' ha
+        have hone' : OneRowAdded st st' := by
+          obtain ⟨r, hr⟩ := hone
+          exact ⟨r, by rw [e1]; exact hr⟩
+        exact ⟨hone', hone'.totalRows, by rw [e2, hhdr]⟩
 
 end AgpTpf.C05
